@@ -294,6 +294,20 @@ impl<'a> Model<'a> {
                 }
                 let count = Val::Int(inner.len() as i128);
                 for f in &fs.count_filters {
+                    // reach probe: the engine's early-termination paths only matter when the
+                    // fold is larger than the bound the filter puts on its count
+                    if let Operand::Var(v) = &f.operand {
+                        let bound = match self.args.get(v).map(Val::from_fv) {
+                            Some(Val::Int(b)) => Some(b),
+                            Some(Val::List(l)) => l.iter().filter_map(|x| if let Val::Int(b) = x { Some(*b) } else { None }).max(),
+                            _ => None,
+                        };
+                        if let Some(b) = bound {
+                            if (inner.len() as i128) > b.max(0) {
+                                self.probes.insert("fold_larger_than_its_count_filter_bound");
+                            }
+                        }
+                    }
                     let r = self.operand(f, usize::MAX, None, env);
                     if !self.filter_holds(f, &count, r) {
                         return vec![];
